@@ -224,8 +224,9 @@ class ReferenceNode(ObjectNode):
 
     def has_value(self):
         """Always returns :obj:`True` as Reference has value"""
+        self.obj._impl      # Raises if the reference has been deleted
         return True
 
     @property
     def value(self):
-        return self._impl[OBJ].interface
+        return self.obj._impl.interface
